@@ -333,6 +333,11 @@ def run(ck):
                 ops = es[0][1][1:]
                 ins, out = spec.replace(" ", "").split("->")[0].split(","), spec.replace(" ", "").split("->")[1]
                 conj_flags = [_is_conj(getattr(o, "term", None)) for o in ops]
+                inner_ = [(lambda a_: a_.args[0] if isinstance(a_, T.App) and a_.op == "npconj" else getattr(o, "term", None))(getattr(o, "term", None).single_atom() if getattr(o, "term", None) is not None else None) for o in ops]
+                if all(t_ is not None and hasattr(t_, "is_const") and t_.is_const() for t_ in inner_):
+                    # no rotated site on this path: both factors are the constant 1, which is its own conjugate
+                    ck.ok("C04.R2", inst + ":row index with U, column index with conj(U) (no rotated site: factors are 1) [%s]" % pn, rrp.site())
+                    continue
                 if len(ins) != 2 or len(out) != 3 or conj_flags.count(True) != 1:
                     ck.undecided("C04.R2", inst + ":factor tensor [%s]" % pn, rrp.site(), "factor einsum %r with conj flags %s not recognised" % (spec, conj_flags))
                     continue
@@ -449,6 +454,17 @@ def run(ck):
                     vt_ = v.term if isinstance(v, VTens) else None
                     ck.check(any(c_[6] == nc[0][7].get("x") and c_[7].get("v") == vt_ for c_ in pc), "C04.R2", inst + ":amplitudes of the expanded states [%s]" % _c(p), rpi.site(),
                              "the amplitudes multiplied into the unitary factors are not psi(expanded states)")
+                # the amplitudes are multiplied by the entries U[outcome, input] themselves: a factor built from conjugate-transposed
+                # entries must have been conjugated back (exactly one of the two)
+                tv_ = terms_v.term if isinstance(terms_v, VTens) else None
+                if tv_ is not None:
+                    n_conj = sum(1 for a_ in tv_.all_atoms() if isinstance(a_, T.App) and a_.op == "npconj" and not (hasattr(a_.args[0], "is_const") and a_.args[0].is_const()))
+                    dag_ = _dagger_entries(tv_)
+                    if dag_ or n_conj:
+                        ck.check((n_conj % 2 == 1) == dag_, "C04.R2", inst + ":amplitudes multiplied by U, not conj(U) [%s]" % _c(p), rpi.site(),
+                                 "the summand is psi(v) times the conjugate of U[outcome, input] (%s): the entries of conj(U) psi are returned, which differ from U psi for every basis with a non-real unitary (Y)"
+                                 % ("the factor is built from conjugate-transposed entries and never conjugated back" if dag_ else "the factor is conjugated although it holds the entries of U"),
+                                 key="C04.R2|rotate_psi_inner_prod|conjugated factor")
                 if which == "explicit" and nc:
                     mt = nc[0][7].get("x")
                     at = mt.single_atom() if mt is not None else None
@@ -560,7 +576,14 @@ def run(ck):
             gen_i = any(isinstance(a, T.App) and a.op == "arange" for a in (inp[1].all_atoms() if si else []))
             ok = ("states" in so and not gen_o) and gen_i
             swapped = ("states" in si and not gen_i) and gen_o
-            ck.check(True if ok else (False if swapped else None), "C04.R3", "unitary indexed [site, :, measured outcome, summed input] [%s]" % _c(p), rbs.site(),
+            # the gathered matrices are the conjugate transposes of the dictionary's entries (stack(t(re), -t(im))): read at
+            # [input, outcome] they give conj(U[outcome, input]) - the right entry, conjugated (what the callers do with it is R2's)
+            if swapped and _dagger_entries(base_t):
+                ck.ok("C04.R3", "unitary indexed [site, :, measured outcome, summed input] (conjugate transpose read at [input, outcome]) [%s]" % _c(p), rbs.site())
+                swapped_dagger = True
+            else:
+                swapped_dagger = False
+            ck.check(True if (ok or swapped_dagger) else (False if swapped else None), "C04.R3", "unitary indexed [site, :, measured outcome, summed input] [%s]" % _c(p), rbs.site(),
                      "the unitary's row index comes from %s and its column index from %s: rows must be the measured outcome (the given states) and columns the summed-over inputs (the generated subspace)" % (
                          "the generated subspace" if gen_o else "the states", "the states" if not gen_i else "the generated subspace"))
             # the factor is the product over the rotated sites of the *complex* gathered entry re + i im (user-added unitaries are complex
@@ -844,11 +867,33 @@ def _c(p):
     return ",".join("%s=%s" % (c[1][:18], c[2]) for c in p.conds[:3])
 
 
+def _dagger_entries(t):
+    """t holds matrices built as stack(t(re X), -t(im X)) of one complex pair X: the conjugate transposes of the X"""
+    if t is None or not hasattr(t, "all_atoms"):
+        return False
+    for a in t.all_atoms():
+        if isinstance(a, T.App) and a.op == "stack0" and len(a.args) == 2 and all(hasattr(x, "single_mono") for x in a.args):
+            m0, m1 = a.args[0].single_mono(), a.args[1].single_mono()
+            if m0 is None or m1 is None or m0[1] != 1 or m1[1] != -1 or len(m0[0]) != 1 or len(m1[0]) != 1:
+                continue
+            x0, x1 = m0[0][0][0], m1[0][0][0]
+            if isinstance(x0, T.App) and isinstance(x1, T.App) and x0.op == x1.op == "t":
+                r0, r1 = x0.args[0].single_atom(), x1.args[0].single_atom()
+                if (isinstance(r0, T.App) and isinstance(r1, T.App) and r0.op == r1.op == "idx0" and r0.args[0] == r1.args[0]
+                        and r0.args[1] in (0, T.ZERO) and r1.args[1] in (1, T.ONE)):
+                    return True
+    return False
+
+
 def _is_conj(t):
+    """the operand is the conjugate of the unitary factor: written with an outer conj, or built from conjugate-transposed entries
+    (one or the other, not both)"""
     if t is None:
         return None
     at = t.single_atom()
-    return at is not None and isinstance(at, T.App) and at.op == "npconj"
+    outer = at is not None and isinstance(at, T.App) and at.op == "npconj"
+    inner = at.args[0] if outer and hasattr(at.args[0], "all_atoms") else t
+    return outer != _dagger_entries(inner)
 
 
 def _kron_instance(ck, prog, km, ns):
